@@ -205,7 +205,7 @@ func runMutate(c *fw.Ctx) {
 	c.Cases("mutate.directed", len(dl), func(cs *fw.Case) {
 		mutateCase(cs, dl[cs.Index].it, dl[cs.Index].p)
 	})
-	c.Cases("mutate", c.N(600, 8000), func(cs *fw.Case) {
+	c.Cases("mutate", c.N(600, 5000), func(cs *fw.Case) {
 		it := ml[cs.Index%len(ml)]
 		var p []float64
 		for i := 0; i < 50; i++ {
